@@ -567,6 +567,25 @@ def rule_load_from_given_folder(ctx: Ctx) -> None:
     ctx.floor("2-paths.loads-in-RunInfo.load", n, 2)
 
 
+def rule_record_always_written(ctx: Ctx) -> None:
+    """Every run (also a resumed one) writes its description: on every normal path RunInfo.create passes `_write()`.  What a resumed
+    run is compared with does not cover everything the record holds (the storage backends per output are not compared): a run that
+    skips the write leaves a record that describes another run - RunInfo.load(F).storage is stale and load_outputs reads leftovers."""
+    P = ctx.prog
+    create = P.cls("pipefunc.map._run_info.RunInfo").methods["create"]
+    cfg = ctx.cfg(create)
+    writes = set(cfg.nodes(lambda s_: not isinstance(s_, (ast.If, ast.For, ast.While, ast.Try, ast.With)) and any(
+        isinstance(c, ast.Call) and isinstance(c.func, ast.Attribute) and c.func.attr in ("_write", "dump") and not dotted(c.func).startswith(("json.", "cloudpickle.", "pickle.")) for c in ast.walk(s_))))
+    if not writes:
+        ctx.add("1-table", create, create.node, None, "UNDECIDED: no `._write()` / `.dump()` statement in RunInfo.create", key="record-always-written")
+        return
+    ok = cfg.must_pass(ENTRY, EXIT, writes, normal_only=True)
+    w = None if ok else cfg.witness_path(ENTRY, EXIT, writes)
+    ctx.add("1-table", create, cfg.stmt[sorted(writes)[0]], ok, "every normal path through RunInfo.create writes the run description" if ok else
+            "RunInfo.create can return without writing the run description (a resumed run is taken to be described already): what is not part of the resume comparison - e.g. the storage backend per output - "
+            "stays as the earlier run recorded it, and the folder is reloaded with the wrong backends", key="record-always-written", path=cfg.describe(w, create.module.relpath) if w else None)
+
+
 def rule_byte_codec(ctx: Ctx) -> None:
     """Every reader of pickled run-folder files undoes exactly the byte-level transforms the writers apply.  The element files are
     written by ONE primitive and read by several (the generic loader, the bulk reader of FileArray that unpickles raw bytes
@@ -605,7 +624,7 @@ def rule_byte_codec(ctx: Ctx) -> None:
 
 
 def check(ctx: Ctx) -> None:
-    for rule in (rule_table, rule_fresh_load, rule_paths, rule_path_names, rule_process, rule_rebuild, rule_persist, rule_byte_codec, rule_load_from_given_folder):
+    for rule in (rule_table, rule_fresh_load, rule_paths, rule_path_names, rule_process, rule_rebuild, rule_persist, rule_byte_codec, rule_load_from_given_folder, rule_record_always_written):
         ctx.run(rule)
 
 
